@@ -15,7 +15,12 @@
     events and the error state of the surrounding scope are validated by Trace_Try.tla.
 (R) the cut schedule of the model forced on the real code with the try.handler hook: the
     finally handler has failed before the fail / success handler is submitted; the run
-    must finish (no panic) and its trace must be accepted."""
+    must finish (no panic) and its trace must be accepted.
+(T2) pairs of try blocks (4 first blocks x all 162 one-command second blocks) run one after
+    the other by ONE application through one terminal session; a separator command closes
+    the first history and opens the second, so each block is validated on its own: the
+    second block must behave as if the first had never run (handler tasks of different
+    blocks must not collide) and the first must leave no error behind."""
 import json
 import vlib
 
@@ -56,6 +61,14 @@ def run(ctx):
                                  key_of=lambda e: 'trace-gated:%s:%s' % (e.get('ev'), e.get('id', '')), timeout=3000)
         ctx.cov['evaluations'] += vg['events']
         total += vg['histories']
+    # two try blocks run one after the other by ONE application: each must behave as if alone
+    if not v['rejected']:
+        ts = ctx.tmp('c16_seq.ndjson')
+        ctx.vh(['tryseq', '--out', ts, '--every', '3' if q else '1', '--offset', str(ctx.seed)], timeout=3000)
+        vs = vlib.validate_trace(ctx, 'pipeline', 'Trace_Try', 'Trace_Try.cfg', ts, what='two try blocks in one application (each validated on its own)',
+                                 key_of=lambda e: 'trace-seq:%s:%s' % (e.get('ev'), e.get('id', '')), timeout=3000)
+        ctx.cov['evaluations'] += vs['events']
+        total += vs['histories']
     ctx.cov['distinct_nontrivial'] = total
     ctx.cov['rule'] = 'every program = (body length, failing command, nested task, defined handlers, failing handlers) in the bound; repeated for schedule variety in the thorough tier'
     with open(tf) as f:
